@@ -145,7 +145,7 @@ def run_case(case):
             fobj = open(path, "w+b")
             z = py7zr.SevenZipFile(fobj, "w", filters=filters, password=password)
         else:
-            volsize = R.choice([v for v in (64, 100, 1000, 65536) if v * 400 >= block])  # MultiVolume.write recurses once per volume
+            volsize = case.get("volume") or R.choice([v for v in (64, 100, 1000, 10007, 65536, 70001) if v * 400 >= block])  # MultiVolume.write recurses once per volume
             vol = multivolumefile.MultiVolume(path, mode="wb", volume=volsize, ext_digits=4)
             z = py7zr.SevenZipFile(vol, "w", filters=filters, password=password)
         if case["header"] == "raw":
